@@ -56,12 +56,12 @@ class FileSystemLoader(BaseLoader):
         if template_path.is_absolute() or os.path.pardir in template_path.parts:
             raise TemplateNotFoundError(template_name)
 
-        if self.ext and not template_path.suffix:
+        if self.ext and template_path.name and not template_path.suffix:
             template_path = template_path.with_suffix(self.ext)
 
         for path in self.search_path:
             source_path = path.joinpath(template_path)
-            if not source_path.exists():
+            if not source_path.is_file():
                 continue
             return source_path
         raise TemplateNotFoundError(template_name)
